@@ -35,6 +35,14 @@ func ufSlice(name string, x int) []int {
 
 func src(in []int) fp.Iterator[int] { return iterator.FromSeq(append([]int{}, in...)) }
 
+func mapInts(xs []int, f func(int) int) []int {
+	out := make([]int, 0, len(xs))
+	for _, x := range xs {
+		out = append(out, f(x))
+	}
+	return out
+}
+
 func clampN(n, l int) int {
 	if n < 0 {
 		return 0
@@ -284,6 +292,38 @@ func producers() []prod {
 				e = append(e, zz.UFInt("fl", in[i], a))
 			}
 			return iterator.Flap(iterator.FromSeq(fs))(a), e
+		}},
+		{"Concat_MethodMap_Concat", func(in []int) (fp.Iterator[int], []int) {
+			// a method applied to the result of Concat, which is then an operand of another Concat
+			k := zz.IntIn("split", 0, len(in))
+			a, b := in[:k], in[k:]
+			f := ufF("f")
+			var e []int
+			for _, x := range in {
+				e = append(e, f(x))
+			}
+			tail := []int{zz.Int("t")}
+			e = append(e, tail...)
+			switch zz.Choice("shape", 3) {
+			case 0:
+				return src(a).Concat(src(b)).Map(f).Concat(src(tail)), e
+			case 1:
+				return src(a).Appended(0).Concat(src(b)).Drop(0).Map(f).Concat(src(tail)), append(append(append([]int{}, mapInts(a, f)...), f(0)), append(mapInts(b, f), tail...)...)
+			}
+			return src(tail).Concat(src(a).Concat(src(b)).Map(f)), append(append([]int{}, tail...), mapInts(in, f)...)
+		}},
+		{"Concat_MethodFilter_Concat", func(in []int) (fp.Iterator[int], []int) {
+			k := zz.IntIn("split", 0, len(in))
+			a, b := in[:k], in[k:]
+			p := ufP("p")
+			var e []int
+			for _, x := range in {
+				if p(x) {
+					e = append(e, x)
+				}
+			}
+			tail := []int{zz.Int("t")}
+			return src(a).Concat(src(b)).Filter(p).Concat(src(tail)), append(e, tail...)
 		}},
 		{"Zip", func(in []int) (fp.Iterator[int], []int) {
 			k := zz.IntIn("split", 0, len(in))
